@@ -1204,6 +1204,9 @@ func (c *Ctx) upperCased(fi *core.FuncInfo, e ast.Expr, depth int) bool {
 	}
 	info := c.info(fi)
 	e = core.Unparen(e)
+	if sv, isConst := core.ConstString(info, e); isConst {
+		return sv == strings.ToUpper(sv) // the builder's own method constants
+	}
 	if call, ok := e.(*ast.CallExpr); ok {
 		callee := c.P.CalleeAny(fi, call)
 		return callee != nil && callee.FullName() == "strings.ToUpper"
